@@ -692,41 +692,51 @@ impl Property for C09 {
             let v = (t.v as usize) % nv;
             let (holder, target, msg, prefix): (String, Addr, serde_json::Value, &str) = match t.role % 9 {
                 0 => (roles.vamm_owner[v].clone(), it.w.vamms[v].clone(), jv(&vamm::ExecuteMsg::UpdateOwner { owner: to.clone() }), "vamm."),
-                1 => (
-                    roles.engine_owner.clone(),
-                    it.w.engine.clone(),
-                    jv(&eng::ExecuteMsg::UpdateConfig {
-                        owner: Some(to.clone()),
-                        insurance_fund: None,
-                        fee_pool: None,
-                        initial_margin_ratio: None,
-                        maintenance_margin_ratio: None,
-                        partial_liquidation_ratio: None,
-                        liquidation_fee: None,
-                    }),
-                    "engine.",
-                ),
+                1 => {
+                    // half of the engine hand-overs travel together with other fields of the same message, re-stating the
+                    // values the engine already has (so that nothing but authorisation can fail)
+                    let ec = it.w.engine_config();
+                    let k = t.to % 8;
+                    (
+                        roles.engine_owner.clone(),
+                        it.w.engine.clone(),
+                        jv(&eng::ExecuteMsg::UpdateConfig {
+                            owner: Some(to.clone()),
+                            insurance_fund: if k >= 6 { Some(ec.insurance_fund.to_string()) } else { None },
+                            fee_pool: if k >= 6 { Some(ec.fee_pool.to_string()) } else { None },
+                            initial_margin_ratio: if k == 4 || k == 7 { Some(ec.initial_margin_ratio) } else { None },
+                            maintenance_margin_ratio: if k == 5 || k == 7 { Some(ec.maintenance_margin_ratio) } else { None },
+                            partial_liquidation_ratio: if k == 7 { Some(ec.partial_liquidation_ratio) } else { None },
+                            liquidation_fee: if k == 5 || k == 7 { Some(ec.liquidation_fee) } else { None },
+                        }),
+                        "engine.",
+                    )
+                }
                 2 => (roles.pauser.clone(), it.w.engine.clone(), jv(&eng::ExecuteMsg::UpdatePauser { pauser: to.clone() }), "engine."),
                 3 => (roles.fund_owner.clone(), it.w.fund.clone(), jv(&fund::ExecuteMsg::UpdateOwner { owner: to.clone() }), "fund."),
                 4 => (roles.pool_owner.clone(), it.w.fee_pool.clone(), jv(&fp::ExecuteMsg::UpdateOwner { owner: to.clone() }), "pool."),
                 5 => (roles.feed_owner[v].clone(), it.w.oracles[v].clone(), jv(&feed::ExecuteMsg::UpdateOwner { owner: to.clone() }), "feed."),
                 6 => (roles.orphan_owner.clone(), orphan.clone(), jv(&vamm::ExecuteMsg::UpdateOwner { owner: to.clone() }), "orphan."),
-                k => (
+                k => {
+                    // one assignment in four re-states the market's fee and band settings in the same message
+                    let oc = if t.to % 4 == 3 { it.w.query::<vamm::ConfigResponse, _>(&orphan, &vamm::QueryMsg::Config {}).ok() } else { None };
+                    (
                     roles.orphan_owner.clone(),
                     orphan.clone(),
                     jv(&vamm::ExecuteMsg::UpdateConfig {
                         base_asset_holding_cap: None,
                         open_interest_notional_cap: None,
-                        toll_ratio: None,
-                        spread_ratio: None,
-                        fluctuation_limit_ratio: None,
+                        toll_ratio: oc.as_ref().map(|c| c.toll_ratio),
+                        spread_ratio: oc.as_ref().map(|c| c.spread_ratio),
+                        fluctuation_limit_ratio: oc.as_ref().map(|c| c.fluctuation_limit_ratio),
                         margin_engine: if k == 7 { Some(to.clone()) } else { None },
                         insurance_fund: if k == 8 { Some(to.clone()) } else { None },
                         pricefeed: None,
                         spot_price_twap_interval: None,
                     }),
                     "orphan.",
-                ),
+                    )
+                }
             };
             let r = it.w.exec_json(&holder, &target, &msg, None);
             log.push(json!({"role": t.role % 9, "v": v, "from": holder, "to": to, "ok": r.ok}));
